@@ -48,7 +48,8 @@ def event(case):
     ok = install_route_probe()
     before = dict(ROUTES)
     ev = mcfam.mc_event(case)
-    ev['routes'] = {k: ROUTES[k] - before[k] for k in ROUTES} if ok else None
+    if ok:                  # the dispatch probe is diagnostic; when the private helper no longer exists nothing is recorded
+        ev['routes'] = {k: ROUTES[k] - before[k] for k in ROUTES}
     return ev
 
 
@@ -125,6 +126,28 @@ def run(ctx):
         a, b = rnd.choice(xn), rnd.choice(xn + M0 + gen.path_un(M0))
         g = rnd.choice([('G', a), ('and', b, a), ('or', a, b), ('U', b, a), ('F', ('and', a, b)), ('G', ('or', a, b)), ('R', a, b)])
         fam_x.append({'K': rnd.choice(scope3), 'f': (rnd.choice('AE'), g)})
+    # until / release whose operands are Boolean combinations MIXING path and state operands, in both operand orders
+    # (classification of an operand as state or path formula; operands that look beyond the point where the until is met)
+    fam_m = []
+    lv = [P, Q, ('not', P), ('not', Q)]
+    for _ in range(3000 if q else 40000):
+        a, b, c = rnd.choice(lv), rnd.choice(lv), rnd.choice(lv)
+        t1 = rnd.choice([('G', a), ('F', a), ('X', a), ('U', a, c), ('X', ('X', a)), ('G', ('F', a))])
+        st = rnd.choice([b, b, ('E', ('X', b)), ('A', ('F', b)), TR])
+        o = rnd.choice(['or', 'and', 'imp'])
+        left = (o, t1, st) if rnd.random() < 0.6 else (o, st, t1)
+        if o != 'imp' and rnd.random() < 0.25:
+            left = (o, t1, st, rnd.choice(lv)) if rnd.random() < 0.5 else (o, rnd.choice(lv), t1, st)
+        right = rnd.choice([('X', c), ('F', c), ('G', c), c, ('X', ('not', a)), ('and', ('X', c), b)])
+        g = (rnd.choice('UR'), left, right) if rnd.random() < 0.8 else (rnd.choice('UR'), right, left)
+        if gen.temporal_count(g) <= 4:
+            if rnd.random() < 0.5:
+                K = rnd.choice(scope3)
+            else:           # branching structures in which one atom holds almost everywhere (continuations that differ late)
+                K = gen.rand_kripke(rnd, rnd.choice([3, 4, 4]), density=0.5)
+                hi, lo = rnd.choice([('p', 'q'), ('q', 'p')])
+                K = dict(K, L=[sorted(([hi] if rnd.random() < 0.75 else []) + ([lo] if rnd.random() < 0.2 else [])) for _ in range(K['n'])])
+            fam_m.append({'K': K, 'f': (rnd.choice('EEEEA'), g)})
     # long sibling quantified subformulas (their auxiliary names are long; one of them is often unsatisfiable)
     fam_long = []
     while len(fam_long) < (250 if q else 10000):
@@ -133,6 +156,17 @@ def run(ctx):
         if rnd.random() < 0.5:      # make the first sibling unsatisfiable / valid so that it labels no state / every state
             big = gen.rand_prop(rnd, 8)
             g1 = rnd.choice([('and', ('G', big), ('F', ('not', big))), ('and', ('G', P), ('F', ('not', P)), ('X', big)), ('or', ('G', big), ('F', ('not', big)))])
+        if rnd.random() < 0.4:
+            # siblings whose printed forms share a long prefix (> 64 characters) and differ only at the end; the first
+            # labels no state (or every state), the second some
+            big = gen.rand_prop(rnd, 8)
+            pre = rnd.choice([('or', big, ('not', big)), ('imp', big, big), big])
+            o = rnd.choice(['and', 'and', 'or'])
+            t1 = rnd.choice([('and', ('G', P), ('F', ('not', P))), ('G', ('and', Q, ('not', Q))), ('F', FA)]) if o == 'and' else rnd.choice([('G', TR), ('or', ('G', P), ('F', ('not', P)))])
+            t2 = rnd.choice([('F', Q), ('G', P), ('X', ('not', P)), ('U', P, Q), ('G', ('F', Q))])
+            g1, g2 = (o, pre, t1), (o, pre, t2)
+            if rnd.random() < 0.3:
+                g1, g2 = g2, g1
         if gen.temporal_count(g1) > 3 or gen.temporal_count(g2) > 3:
             continue
         f = (rnd.choice(['and', 'imp', 'or']), (q1, g1), (q2, g2))
@@ -142,7 +176,8 @@ def run(ctx):
     shp = gen.shared_polarity_formulas()
     fam_s = [{'K': rnd.choice(scope3), 'f': (rnd.choice('AE'), g)} for g in shp for _ in range(2 if q else 10)]
     fam_e = [dict(c, mode=rnd.choice(['text', 'raw'])) for c in gen.samp(rnd, fam_a + fam_c + fam_n, 1200 if q else 15000)]
-    fams = [('scope2', fam_a), ('catalogue3', fam_b), ('nested', fam_c), ('nary', fam_n), ('next-negation', fam_x), ('shared-polarity', fam_s), ('long-siblings', fam_long), ('random', fam_d), ('text', fam_e)]
+    fam_t = [{'K': rnd.choice(scope3), 'f': (rnd.choice('AE'), gen.tall_path(rnd, rnd.randint(98, 130))), 'late_edge': False} for _ in range(16 if q else 200)]
+    fams = [('tall', fam_t), ('mixed-operand until', fam_m), ('scope2', fam_a), ('catalogue3', fam_b), ('nested', fam_c), ('nary', fam_n), ('next-negation', fam_x), ('shared-polarity', fam_s), ('long-siblings', fam_long), ('random', fam_d), ('text', fam_e)]
     for _, fam in fams:
         for c in fam:
             c['logic'] = 'CTLS'
